@@ -17,8 +17,13 @@ use vcore::exprgen;
 use vcore::run::{Run, guarded, machinery_failure, spaced_samples};
 use vcore::synt::{self, Node, Tok};
 
-const FILLERS: [(&str, &str); 10] = [
+const FILLERS: [(&str, &str); 14] = [
   ("space", " "),
+  // comment closers with extra stars, doc comments, the empty comment, a comment with quotes
+  ("block-comment-star-run-closer", " /* d **/ "),
+  ("doc-comment-star-run-closer", " /** d ***/ "),
+  ("minimal-block-comments", " /**/ /***/ "),
+  ("block-comment-with-quote-and-slashes", " /* \" // */ "),
   // a carriage return that is NOT part of a CRLF: whitespace that stays on the line
   ("lone-cr", "\r"),
   ("cr-space-cr", "\r \r"),
@@ -315,7 +320,7 @@ fn main() {
     json!({
       "evaluations": evaluated.load(Ordering::Relaxed),
       "distinct_nontrivial": distinct,
-      "rule": "layout variants of every base text: original, 10 uniform fillers, one long line, and every single inter-token gap replaced by each of 10 fillers (space, lone CR, CR-space-CR, block comment containing a CR, LF, CRLF, tab, mixed, multi-line block comment, line comment); a variant counts when it parses; distinct = distinct (base text, filler kind) combinations checked",
+      "rule": "layout variants of every base text: original, 14 uniform fillers, one long line, and every single inter-token gap replaced by each of 14 fillers (space, block / doc comments closed by a run of stars, minimal comments, a comment containing a quote, lone CR, CR-space-CR, block comment containing a CR, LF, CRLF, tab, mixed, multi-line block comment, line comment); a variant counts when it parses; distinct = distinct (base text, filler kind) combinations checked",
       "samples": samples,
       "base_texts": bases.len(),
       "generated_variants": all_variants.len(),
